@@ -129,6 +129,10 @@ def check(pm: ProgramModel, ctx: Ctx) -> None:
     cd.report("VOC", "stress-shapes", cd.roundtrip(ctc_model(mb, stress_trees(mb))),
               "constraint shapes that stress normal forms", ("constraint", "constraint-count"))
     cd.large(mb, BINARY_LOGICAL, mixed=False)
+    from ..interact import Fragment, sweep
+    fr = Fragment(names=dict(NAME_CLASSES), ops=tuple(BINARY_LOGICAL), abstract=False)
+    ctx.analysed.update({f"C08:pairwise-{k_}": v for k_, v in sweep(
+        cd, mb, fr, ("name", "root", "parent", "relation", "constraint", "constraint-count")).items()})
     cd.finish_unowned()
     ctx.analysed["C08:compositions"] = cd.n
     ctx.floor("C08", "obligations", len(ctx.obligations), 40)
